@@ -6,6 +6,14 @@ HOOK_COMMITS = ["ca6d3b8", "a1d2aab"]
 
 # id -> (technique, level text, level note, design ref)
 CLAIMED = {
+ "C06": ("exhaustive enumeration of ALL strings of <=k tokens over a 30-token hostile alphabet (and k+1 over a 16-token core), each run through the real serial and parallel parsers, all error renderers and every read-only command, in crash-isolated worker processes",
+         "Totality is decided on a complete finite space: every string of at most 4 (quick) / 5 (thorough) tokens over an alphabet with one token per short-cut in the parser (dates, indentations, both line endings, lone CR, NBSP, invalid and truncated UTF-8, NUL, 20-digit and near-int64 numbers, every punctuation the grammar knows), plus long-line and hand-picked deep cases. Each is parsed serially and with 2 and 3 workers; the result shape is checked; every error accessor, the terminal and JSON error renderings are invoked; every accepted input runs through print/total/report(5 aggregations, fill, chart)/tags/today/json with two clock readings. A panic in a klog-started goroutine kills the worker and is attributed through a pre-written case marker, then confirmed by replay.",
+         "Bounded by token count; the property's sampling clauses (coverage-guided mutation, random bytes) belong to a different technique family and are not covered. Known findings: huge-integer panics pinned by the existing tests.",
+         "DESIGN.md §4 C06"),
+ "C09": ("bounded exhaustive enumeration of valid documents (grammar, formatting and notation products); print output compared byte-wise with an independently rendered canonical form, re-parsed by reference and klog, printed again",
+         "For every reference-valid document of the families (2.2 M in quick) the real serialiser's output must equal the canonical rendering computed independently from the reference denotation (so values, notation and layout are all decided), must re-parse to the same records under both parsers, and must be a fixed point. The notation sweep and every 64th case also go through `klog print --no-style` via the complete CLI.",
+         "Trusted: specmodel parser and the independent canonical renderer. Should-total compared by value; irregular dash spacing may normalise either way (the statement does not say).",
+         "DESIGN.md §4 C09"),
  "C01": ("bounded exhaustive enumeration of documents from the spec grammar and of all single/double rule-violating edits, three-way compared (generator denotation = reference parser = klog)",
          "Every document of the stated families (1-3 records x value menus, the full formatting product, every time/duration literal in a skeleton, every single and double edit from a 90-operator catalogue at every line) is parsed by the real parser and compared with an independent reference parser written from the specification: accept/reject and the full denotation (dates, should-totals, summaries, entry kinds, times with shifts and notation, durations with sign notation, dash spacing, placeholder length). The space is enumerated completely, not sampled.",
          "Trusted: specmodel.Parse (cross-checked against the generator's by-construction denotation on every grammar-derived document), don't-care zones listed in DESIGN §3.1, Go's Unicode tables. Bounds: <=3 records, <=3 entries per record, edit pairs on 6 (quick) / 40 (thorough) base documents.",
